@@ -1,6 +1,7 @@
 SPECIFICATION Spec
 CONSTANT D = 0
 CONSTANT Mode = "obs"
+CONSTANT OpSubset = "full"
 CONSTANT MaxLen = 5
 CONSTRAINT Bound
 INVARIANT ObsCoherent
